@@ -62,10 +62,15 @@ func evalChain(c *runlib.Ctx, w witness) (nontrivial bool) {
 
 	o := optsTable[w.Opts]
 	rec := *w.Rec
-	e := newEnv(o)
-
 	fail := func(class, what string) {
 		c.Violation("c19/"+class+"/"+w.key(), what, w)
+	}
+
+	e, bad := newEnv(o)
+	if e == nil {
+		fail("panic", bad)
+
+		return true
 	}
 
 	type node struct {
@@ -188,7 +193,13 @@ func sharedCopies(c *runlib.Ctx) {
 			rs.Attrs = append(rs.Attrs, attrSpec{K: fmt.Sprintf("r%d", i), V: fmt.Sprintf("i:%d", i)})
 		}
 
-		e := newEnv(o)
+		e, bad := newEnv(o)
+		if e == nil {
+			c.Violation("c19/panic/shared-record-value/new", bad, witness{Kind: "shared", Family: "shared-record-value"})
+
+			return
+		}
+
 		h1 := e.root.WithAttrs(buildAttrs([]attrSpec{{K: "h1", V: "i:1"}}))
 		h2 := e.root.WithAttrs(buildAttrs([]attrSpec{{K: "h2", V: "i:2"}}))
 		r := rs.build()
@@ -205,9 +216,11 @@ func sharedCopies(c *runlib.Ctx) {
 
 			if strings.Contains(e.buf.String(), "!BUG") {
 				c.Count("shared_record_value_outputs_with_BUG_attr", 1)
-				c.Note("informational, not asserted: a record with %d attributes added one at a time, passed by "+
-					"value (no Clone) to several handlers, prints slog's !BUG attribute from the second handler on: "+
-					"Handle calls AddAttrs on its copy without Clone", n)
+				c.Count(fmt.Sprintf("shared_record_value_outputs_with_BUG_attr/%d_record_attrs", n), 1)
+				c.Note("informational, not asserted: a record whose Record.back has spare capacity (8, 10, 11, 12 " +
+					"attributes added one at a time), passed by value without Clone to several handlers, prints slog's " +
+					"!BUG attribute from the second handler on, because Handle calls AddAttrs on its copy; slog puts " +
+					"the duty to Clone on the caller that makes more than one copy")
 			}
 		}
 	}
